@@ -8,6 +8,7 @@ import (
 	"bytes"
 	"encoding/hex"
 	"encoding/json"
+	"errors"
 	"fmt"
 	"io"
 	"os"
@@ -49,8 +50,25 @@ type encScriptJ struct {
 // cutFile makes the underlying file return short reads.
 type cutFile struct {
 	afero.File
-	cut []int
-	i   int
+	cut    []int
+	i      int
+	nextAt string // "eof" | "err": the next ReadAt ends early
+	hitAt  bool
+}
+
+// ReadAt: cut on demand - half of what was asked for, then end of file (the file shrank) or an I/O error.
+func (c *cutFile) ReadAt(p []byte, off int64) (int, error) {
+	if c.nextAt != "" && len(p) > 1 {
+		kind := c.nextAt
+		c.nextAt = ""
+		c.hitAt = true
+		n, _ := c.File.ReadAt(p[:len(p)/2], off)
+		if kind == "eof" {
+			return n, io.EOF
+		}
+		return n, errors.New("injected I/O error")
+	}
+	return c.File.ReadAt(p, off)
 }
 
 func (c *cutFile) Read(p []byte) (int, error) {
@@ -155,7 +173,9 @@ func runEncCase(c *encCaseJ, em *emitter, index int) error {
 	if c.Spec.RawCount != nil {
 		count = *c.Spec.RawCount
 	}
+	var cf *cutFile // the underlying file of the view opened last (nil when opened through fs.FS)
 	open := func() (fileLike, error) {
+		cf = nil
 		if c.Layout != nil {
 			fsys := &pfs.FS{Fs: afero.NewBasePathFs(afero.NewOsFs(), dir)}
 			name := "/" + filepath.Join(c.Layout.Path...)
@@ -169,9 +189,8 @@ func runEncCase(c *encCaseJ, em *emitter, index int) error {
 		if err != nil {
 			return nil, err
 		}
-		if len(c.Cut) > 0 {
-			f = &cutFile{File: f, cut: c.Cut}
-		}
+		cf = &cutFile{File: f, cut: c.Cut}
+		f = cf
 		var view afero.File = f
 		if c.Wrap3k3y != "over-raw" {
 			e, err := pfs.NewEncryptedISO(f, openKey, c.Clear)
@@ -241,7 +260,10 @@ func runEncCase(c *encCaseJ, em *emitter, index int) error {
 		}
 		before := last
 		r := map[string]interface{}{"ev": "EncOp", "i": i, "op": op.Op, "n": op.N, "off": pos(op.Off), "whence": op.Whence,
-			"k": 0, "err": "nil", "at": pos(0), "segs": []interface{}{}, "ret": pos(0), "before": pos(before), "fresh": false}
+			"k": 0, "err": "nil", "at": pos(0), "segs": []interface{}{}, "ret": pos(0), "before": pos(before), "fresh": false, "under": false}
+		if cf != nil {
+			cf.nextAt, cf.hitAt = op.Under, false
+		}
 		func() {
 			defer func() {
 				if p := recover(); p != nil {
@@ -265,6 +287,10 @@ func runEncCase(c *encCaseJ, em *emitter, index int) error {
 				r["ret"], r["err"] = pos(ret), errClass(e)
 			}
 		}()
+		if cf != nil {
+			r["under"] = cf.hitAt // the underlying file did end early during this call
+			cf.nextAt = ""
+		}
 		if r["err"] == "panic" {
 			r["tell"] = pos(-1)
 			em.emit(r)
